@@ -23,6 +23,12 @@
               j ...        AddrComponent() certhashes decoded
        hash / digest ids are small integers the harness assigns per distinct byte string.
 
+   kind 6 : as kind 3 with one more leading field:  6 cfg n CERT^n ...
+       cfg = how the dialing transport was built: 0 default, 1 WithTLSClientConfig
+       (other fields set, no callback), 2 WithTLSClientConfig whose tls.Config
+       already has a VerifyPeerCertificate that accepts everything.  The model and
+       the monitor ignore cfg: the property does not depend on it.
+
    kind 5 : as kind 1, but of a real LISTENER that stays open: "newCertManager" is
        transport.Listen, vs ve vh is the leaf certificate presented in a real
        QUIC/TLS handshake against the listener at that instant, j.. are the
@@ -69,20 +75,23 @@ Inductive ev :=
 (* what the monitor looks at: the instant, the served certificate, the two
    advertised hash lists, and whether the sample was taken at the same
    instant as the previous one from a freshly started manager *)
+(* [s_fresh]: taken from a manager started at that instant (restart or second
+   manager); [s_probe]: that manager is a second one, observed once and closed
+   (the long-running one goes on) *)
 Record sample := mkSample {
-  s_t : Z; s_srv : cobs; s_ser : list (Z * Z); s_addr : list (Z * Z); s_fresh : bool
+  s_t : Z; s_srv : cobs; s_ser : list (Z * Z); s_addr : list (Z * Z); s_fresh : bool; s_probe : bool
 }.
 
-Definition sample_of (fresh : bool) (s : snap) : sample :=
-  mkSample (sn_t s) (sn_srv s) (sn_ser s) (sn_addr s) fresh.
+Definition sample_of (fresh probe : bool) (s : snap) : sample :=
+  mkSample (sn_t s) (sn_srv s) (sn_ser s) (sn_addr s) fresh probe.
 
 Fixpoint samples_of (l : list ev) : list sample :=
   match l with
   | [] => []
-  | EInit s :: r => sample_of false s :: samples_of r
-  | EAdv _ s :: r => sample_of false s :: samples_of r
-  | ERestart s :: r => sample_of true s :: samples_of r
-  | EProbe s :: r => sample_of true s :: samples_of r
+  | EInit s :: r => sample_of false false s :: samples_of r
+  | EAdv _ s :: r => sample_of false false s :: samples_of r
+  | ERestart s :: r => sample_of true false s :: samples_of r
+  | EProbe s :: r => sample_of true true s :: samples_of r
   | ERegen _ _ _ :: r => samples_of r
   end.
 
@@ -122,6 +131,38 @@ Definition fresh_ok (prev x : sample) : bool :=
   ((s_t x =? s_t prev) && (o_h (s_srv x) =? o_h (s_srv prev)) &&
    (o_s (s_srv x) =? o_s (s_srv prev)) && (o_e (s_srv x) =? o_e (s_srv prev))).
 
+(* clause 9: an address learned from a manager (every hash of its address
+   component at sample i) is CONFIRMED by that same manager — every one of those
+   hashes is in the list it sends in the handshake — at every later sample up to
+   the end of the following certificate period, i.e. while the served
+   certificate changed at most once.  Ends at a restart (the manager that gave
+   out the address is gone; a fresh one cannot know the previous certificate's
+   hash is still in use); second managers are skipped.  This is what makes a
+   dial with that address complete: upgrade() demands confirmation of every
+   hash of the dialed address. *)
+Fixpoint confirm_ahead (a : list (Z * Z)) (h : Z) (budget : nat) (rest : list sample) : bool :=
+  match rest with
+  | [] => true
+  | y :: r =>
+      if s_probe y then confirm_ahead a h budget r
+      else if s_fresh y then true
+      else
+        let h' := o_h (s_srv y) in
+        if h' =? h then confirm a (s_ser y) && confirm_ahead a h budget r
+        else match budget with
+             | O => true
+             | S b => confirm a (s_ser y) && confirm_ahead a h' b r
+             end
+  end.
+
+(* for the diagnostic only: the instant of the first later sample whose
+   handshake list does not confirm the address (0 if none) *)
+Fixpoint confirm_fail_t (a : list (Z * Z)) (rest : list sample) : Z :=
+  match rest with
+  | [] => 0
+  | y :: r => if s_probe y || confirm a (s_ser y) then confirm_fail_t a r else s_t y
+  end.
+
 Fixpoint timeline_diag (skew : Z) (i : Z) (prev : option sample) (l : list sample) : list Z :=
   match l with
   | [] => []
@@ -132,6 +173,8 @@ Fixpoint timeline_diag (skew : Z) (i : Z) (prev : option sample) (l : list sampl
           else if negb (ahead_ok (s_ser x) (o_h (s_srv x)) 1 r) then [ERR_PROPERTY; i; 6]
           else if negb (match prev with Some p => fresh_ok p x | None => negb (s_fresh x) end)
                then [ERR_PROPERTY; i; 8]
+          else if negb (s_probe x || confirm_ahead (s_addr x) (o_h (s_srv x)) 1 r)
+               then [ERR_PROPERTY; i; 9; s_t x; confirm_fail_t (s_addr x) r]
           else timeline_diag skew (i + 1) (Some x) r
       | d => ERR_PROPERTY :: i :: d
       end
@@ -420,6 +463,7 @@ Definition decode_case (l : list Z) : option dcase :=
                          | _ => None end
       | None => None
       end
+  | 6 :: _ :: r     (* as kind 3, preceded by the dialer's configuration class *)
   | 3 :: r =>
       match take_chain r with
       | Some (ch, r1) =>
